@@ -205,7 +205,7 @@ def check(run: Run) -> None:
             kid = specs.ctx("prop_filter", extra.get("text", "key:val"))
         elif alt == "desc_filter":
             q = extra.get("quote", "'")
-            quoted = SeqStr((q,) + idtext.parts + (q,))
+            quoted = SeqStr((q,) + (tuple(extra["text"]) if "text" in extra else idtext.parts) + (q,))
             kids = {"s_desc_filter" if q == "'" else "d_desc_filter": specs.ctx("s_desc_filter" if q == "'" else "d_desc_filter", quoted)}
             if extra.get("neg"):
                 kids["not_op"] = specs.ctx("not_op", "!")
@@ -441,7 +441,22 @@ def check(run: Run) -> None:
                               f"{spelled} -> {({k: str(v) for k, v in flds.items()})}"[:200],
                               f"the text filter `{spelled}` compiles to {({k: str(v) for k, v in flds.items()})}: expected the text between the quotes, "
                               f"{'NOT_CONTAINS' if neg else 'CONTAINS'} and case_sensitive {'True' if cs else 'None'}", file=FILE)
-    run.floor("text-filter spellings evaluated", n_df, 8)
+    # literals that begin / end with the OTHER quote character, or with blanks: the text is what stands between the delimiters, nothing more is trimmed
+    for q, text in (('"', "'yes'"), ('"', "rock 'n'"), ("'", '"'), ("'", '"quoted" word'), ('"', " padded "), ("'", "c"), ('"', "!c")):
+        for neg in (False, True):
+            spelled = ("!" if neg else "") + q + text + q
+            for f, s in one_atom("desc_filter", quote=q, neg=neg, cs=False, text=text):
+                n_df += 1
+                dfs = f.get("desc_filters", [])
+                flds = s.obj(dfs[0]).fields if len(dfs) == 1 and isinstance(dfs[0], Ref) else {}
+                got = flds.get("value")
+                if isinstance(got, SeqStr) and all(isinstance(x, str) for x in got.parts):
+                    got = "".join(got.parts)
+                ok = got == text and flds.get("op") == DO["NOT_CONTAINS" if neg else "CONTAINS"] and flds.get("case_sensitive") in (None, False)
+                run.check("C04.R4", f"`{spelled}` -> exactly the text between the delimiters", ok, "_get_desc_filter", f"{spelled} -> {({k: str(v) for k, v in flds.items()})}"[:200],
+                          f"the text filter `{spelled}` compiles to {({k: str(v) for k, v in flds.items()})}: expected the value {text!r} (every character between the two delimiting quotes, "
+                          "including quote characters of the other kind and blanks)", file=FILE)
+    run.floor("text-filter spellings evaluated", n_df, 22)
 
     # ------------------------------------------------------------------ R4 property atoms
     PO, PV = _enum(I, model, "PropertyOperator"), _enum(I, model, "PropertyValueType")
@@ -462,7 +477,9 @@ def check(run: Run) -> None:
         flds = s.obj(pfs[0]).fields if len(pfs) == 1 else {}
         run.check("C04.R4", "`key:*` is an existence test", flds.get("op") == PO["EXISTS"] and flds.get("key") == "key", "_split_op_value", f"key:* -> {flds.get('op')}", f"`key:*` compiles to {flds.get('op')}", file=FILE)
     vt_shapes = {"YYMMDD": (shapes["YYMMDD"][0], "DATE"), "digits": (SeqStr((d(0), d(1), d(2))), "INTEGER"), "word": (SeqStr((CharSet(LOWER, sym=1), CharSet(LOWER, sym=2), "x")), "STRING"),
-                 "YYYY-MM-DD": (shapes["YYYY-MM-DD"][0], "DATE"), "3d": ("3d", "DATE")}
+                 "YYYY-MM-DD": (shapes["YYYY-MM-DD"][0], "DATE"), "3d": ("3d", "DATE"),
+                 # spellings Python's int() accepts but that are not runs of digits (the ID token allows '_'): strings
+                 "1_000": ("1_000", "STRING"), "20_24": ("20_24", "STRING"), "12a": ("12a", "STRING"), "0x10": ("0x10", "STRING"), "1e3": ("1e3", "STRING"), "007": ("007", "INTEGER"), "42": ("42", "INTEGER")}
     for nm, (val, want) in vt_shapes.items():
         st = State()
         st.meta["dates_valid"] = True
@@ -474,6 +491,10 @@ def check(run: Run) -> None:
             continue
         run.check("C04.R4", f"a {nm} value is typed {want}", got == [repr(PV[want])], "_get_value_type", f"{nm} -> {got}", f"a property value of shape {nm} is typed {got}, expected {want}", file=FILE)
 
+    # ------------------------------------------------------------------ R3 'today' is today on every compilation
+    from ..daterules import no_memoised_clock
+
+    no_memoised_clock(run, model, "C04.R3", ["zorg.service.compiler._api.build_zorg_query", "zorg.shared.dates.from_date_spec"], floor=2)
     # ------------------------------------------------------------------ R5 nesting
     nesting(run, model, I, specs)
     run.units = dict(grammar_rules=len(g.rule_names), where_atom_alternatives=alts, priority_spellings=n_sp)
